@@ -499,7 +499,7 @@ func poolAll(tier string) (p pool) {
 	return
 }
 
-var allMonitors = []string{"C01", "C02", "C03", "C04", "C05", "C06", "C07", "C08", "C09", "C10", "C11", "C14"}
+var allMonitors = []string{"C01", "C02", "C03", "C04", "C05", "C06", "C07", "C08", "C09", "C10", "C11", "C14", "C16", "C17", "C20"}
 
 // Jobs returns the deterministic job list of a property and tier.
 func Jobs(prop, tier string) []*Job {
@@ -565,6 +565,30 @@ func Jobs(prop, tier string) []*Job {
 		add(poolRead(tier), prop)
 	case "C14":
 		add(poolAll(tier), prop)
+	case "C15":
+		// bounded convergence suffix from every state of the small BFS scenarios and
+		// from every end state of the scripted executions
+		var p pool
+		for _, f := range []feat{syncF, asyncF, pvcqF} {
+			p.bfs = append(p.bfs, bfsElectProp(f), bfsFailover(f), bfsSnapshot(f))
+		}
+		p.bfs = append(p.bfs, bfsConf(syncF, []ConfSpec{ccJointImpl, ccLeave}, 1, int(BCampaign), 1), bfsConf(syncF, []ConfSpec{ccAddVoter4, ccRemove3}, 1, int(BCampaign), 1))
+		p.dd = poolAll(tier).dd
+		n0 := len(jobs)
+		add(p)
+		for _, j := range jobs[n0:] {
+			j.Suffix = true
+		}
+	case "C16":
+		add(poolFlow(tier), prop)
+		add(pool{dd: poolSnapshot(tier).dd}, prop)
+	case "C17":
+		add(poolTick(tier), prop)
+		add(pool{bfs: poolElection(tier).bfs}, prop)
+	case "C20":
+		add(poolSafety(tier), prop)
+		add(poolFlow(tier), prop)
+		add(pool{dd: poolConf(tier).dd}, prop)
 	}
 	for i, j := range jobs {
 		j.Index = i
